@@ -329,5 +329,57 @@ def r08_8(ctx):
     _only(ctx, before, lambda c: c.startswith("Symbol.config_string/"))
 
 
+def r08_9(ctx):
+    """R08.9 keeping a stored default: (a) the stored text of a *string* option is taken over as a literal
+    (_lookup_const_sym) - a lookup by name would turn `MODE="FAST"` into the value of an option called FAST; (b) a stored
+    choice selection is taken over only if that member is still a visible option (it is collected under
+    `resolve_vis() == 2`); (c) the report keeps every mismatch record it is handed (no filtering by earlier records: the
+    same option may mismatch again on a later load with another stored value)."""
+    repo = ctx.repo
+    f = repo.func(f"{CORE}:Symbol._inject_default_value")
+    ctx.analysed(f.qual)
+    fl = Flow(f.node, resolver=Resolver(f.node)).run()
+    construct = "Symbol._inject_default_value/a stored string is a literal, never a symbol reference"
+    lookups = [n for n in ast.walk(f.node) if isinstance(n, ast.Call) and ast.unparse(n.func).endswith("._lookup_sym")]
+    bad = [n for n in lookups if ("self.orig_type == STRING", False) not in (fl.guards_at(n) or set())]
+    const = [n for n in ast.walk(f.node) if isinstance(n, ast.Call) and ast.unparse(n.func).endswith("._lookup_const_sym")
+             and ("self.orig_type == STRING", True) in (fl.guards_at(n) or set())]
+    if bad or not const:
+        ctx.bad(construct, "the stored text of a string option can reach `_lookup_sym()` (lookup by *name*): a text that equals the name of a "
+                "defined option is replaced by that option's value", f.loc((bad or lookups or [f.node])[0]))
+    else:
+        ctx.ok(construct, f.loc(const[0]))
+    c = repo.func(f"{CORE}:Choice.resolve_defaults")
+    ctx.analysed(c.qual)
+    flc = Flow(c.node, resolver=Resolver(c.node)).run()
+    construct = "Choice.resolve_defaults/a stored selection counts only while that member is visible"
+    ys = [n for n in ast.walk(c.node) if isinstance(n, ast.Assign) and isinstance(n.targets[0], ast.Name) and n.targets[0].id == "y_syms_from_sdkconfig"]
+    ok = False
+    msg = "the list of stored selections is not built"
+    for a in ys:
+        if isinstance(a.value, ast.ListComp):
+            conds = " and ".join(ast.unparse(i) for g in a.value.generators for i in g.ifs)
+            ok = "_sdkconfig_value == 'y'" in conds.replace('"', "'") and "resolve_vis() == 2" in conds
+            msg = f"collected under `{conds}`"
+    for n in ast.walk(c.node):
+        if isinstance(n, ast.Call) and ast.unparse(n.func) == "y_syms_from_sdkconfig.append":
+            gs = flc.guards_at(n) or set()
+            m = ast.unparse(n.args[0]) if n.args else "?"
+            ok = (f"{m}.resolve_vis() == 2", True) in gs or (f"{m}.resolve_vis() == 0", False) in gs or (f"{m}.visibility == 2", True) in gs
+            msg = f"appended under {sorted(gs)}"
+    (ctx.ok(construct, c.loc(ys[0]) if ys else c.loc()) if ok else
+     ctx.bad(construct, msg + ": an invisible member is injected as the choice's only default, the first visible member gets selected and the stale "
+             "selection returns when the member becomes visible again", c.loc(ys[0]) if ys else c.loc()))
+    ar = repo.func("esp_kconfiglib.report:DefaultValuesArea.add_record")
+    ctx.analysed(ar.qual)
+    fla = Flow(ar.node, resolver=Resolver(ar.node)).run()
+    for i, n in enumerate(x for x in ast.walk(ar.node) if isinstance(x, ast.Call) and isinstance(x.func, ast.Attribute) and x.func.attr == "add"
+                          and ast.unparse(x.func.value).startswith("self.changed_")):
+        construct = f"DefaultValuesArea.add_record/{ast.unparse(n.func.value)} keeps every record"
+        extra = sorted(k for k, p in (fla.guards_at(n) or set()) if "self.changed_" in k or "record" in k.replace("record_type", ""))
+        (ctx.bad(construct, f"the record is added only under {extra}: a later mismatch of the same option (second load, other stored value) is dropped",
+                 ar.loc(n)) if extra else ctx.ok(construct, ar.loc(n)))
+
+
 def rules():
-    return [("R08.1", r08_1, 2), ("R08.2", r08_2, 2), ("R08.3", r08_3, 8), ("R08.5", r08_5, 3), ("R08.6", r08_6, 8), ("R08.7", r08_7, 6), ("R08.8", r08_8, 1)]
+    return [("R08.9", r08_9, 5), ("R08.1", r08_1, 2), ("R08.2", r08_2, 2), ("R08.3", r08_3, 8), ("R08.5", r08_5, 3), ("R08.6", r08_6, 8), ("R08.7", r08_7, 6), ("R08.8", r08_8, 1)]
